@@ -70,6 +70,7 @@ def parseOp (s : String) : Option Model.Api.Op :=
   else if s == "d" then some .destroy
   else if s == "g" then some .getState
   else if s.startsWith "e:" then some (.receive (s.drop 2).toString)
+  else if s.startsWith "i:" then some (.inject (s.drop 2).toString)
   else none
 
 /-- request `<engine>\t<chart s-expression>\t<comma separated ops>` -/
